@@ -859,7 +859,8 @@ func (f *Frame) makeClosure(ins *ssa.MakeClosure, st State) (Val, State) {
 	st.Heap = h
 	id := f.w.FnID(fn)
 	f.vc.UseFnID(id)
-	f.vc.Assume(Eq(App("fncode!", SInt, r), IntLit(int64(id))))
+	// guarded by the path condition: closures created on exclusive paths may get the same address
+	f.vc.Assume(Implies(st.PC, Eq(App("fncode!", SInt, r), IntLit(int64(id)))))
 	if f.closures == nil {
 		f.closures = map[string]*closureInfo{}
 	}
